@@ -1176,9 +1176,12 @@ class Exec(object):
 
     # ------------------------------------------------------------------ allocation
     def new_addr(self, st, prefix='new'):
+        # the new object lies at or above the allocation counter (not exactly at it: allocations made on
+        # different paths from the same counter must stay unrelated, because facts about the initial contents
+        # of fresh memory are stated without a path condition)
         a = self.ctx.fresh(prefix, INT)
-        self.ctx.assume(eq(a, st.alloc))
-        st.alloc = self.ctx.name('alloc', add(st.alloc, ONE))
+        self.ctx.assume(le(st.alloc, a))
+        st.alloc = self.ctx.name('alloc', add(a, ONE))
         if getattr(self, 'track_own', False):
             # nothing in freshly allocated memory has been handed to a consumer yet
             for key in self.own_types:
